@@ -14,6 +14,8 @@ On break: harness `oracle` compares what the two real clients hold (the property
 import json
 import os
 
+from checks import e2e_common
+
 THEOREMS = ["IstioModel.C03.Theorems", "IstioModel.C03.WdsTheorems"]
 STREAMS = ("book", "equiv", "equivd", "wds")
 
@@ -79,11 +81,16 @@ def run(ctx):
                     found = oracle(ctx, stream, ["case 0 %s" % stream], None)
                     if found:
                         ctx.violation(found[0], found[1], found[2], True)
+    # the statement itself on the REAL generators: one history played to a SotW and a delta client of the same proxy
+    # on a real DiscoveryServer (CDS/EDS/LDS/RDS; ztunnel flavour: WDS vs fresh clients), compared at every step
+    e2e_common.run(ctx, "c03", ctx.n(12, 300))
 
 
 def replay(ctx, path):
     obj = json.load(open(path))
     rep = obj.get("replay", {})
+    if e2e_common.is_e2e_replay(rep):
+        return e2e_common.replay(ctx, rep)
     ops = rep.get("ops") or (rep.get("extra") or {}).get("ops")
     stream = rep.get("stream") or (rep.get("extra") or {}).get("stream") or "book"
     if not ops:
